@@ -365,9 +365,15 @@ var c09DeclKinds = []string{"value receiver", "pointer receiver", "parameter", "
 
 var c09DeclPkgs = []c09Pkg{{fxCUtil, "Fn", "str"}, {"fmt", "Println", "str"}, {gen.FxA, "Fn", "C"}}
 
+// scenario k: package k%3, kind (k/3)%17, and for k >= 51 the declared name is never used (its declaration is then the
+// only occurrence of the identifier in the package)
 func c09DeclScenarioName(k int) string {
 	p := c09DeclPkgs[k%len(c09DeclPkgs)]
-	return fmt.Sprintf("%s named like the import %s, referenced inside its scope", c09DeclKinds[k/len(c09DeclPkgs)], p.path)
+	unused := ""
+	if k >= len(c09DeclKinds)*len(c09DeclPkgs) {
+		unused = " (the declared name is never used)"
+	}
+	return fmt.Sprintf("%s named like the import %s, referenced inside its scope%s", c09DeclKinds[(k/len(c09DeclPkgs))%len(c09DeclKinds)], p.path, unused)
 }
 
 func (c *c09Hist) declScenario(k int) {
@@ -375,7 +381,8 @@ func (c *c09Hist) declScenario(k int) {
 	c.cb = pkg.CB()
 	cb := c.cb
 	p := c09DeclPkgs[k%len(c09DeclPkgs)]
-	kind := c09DeclKinds[k/len(c09DeclPkgs)]
+	kind := c09DeclKinds[(k/len(c09DeclPkgs))%len(c09DeclKinds)]
+	unused := k >= len(c09DeclKinds)*len(c09DeclPkgs)
 	name := p.path[strings.LastIndexByte(p.path, '/')+1:]
 	c.file = "f0.go"
 	pkg.SetCurFile(c.file, true)
@@ -385,7 +392,11 @@ func (c *c09Hist) declScenario(k int) {
 		c.pushCall(p, true)
 		cb.EndStmt()
 	}
-	use := func(v types.Object) { cb.VarRef(nil).Val(v).Assign(1, 1) }
+	use := func(v types.Object) {
+		if !unused {
+			cb.VarRef(nil).Val(v).Assign(1, 1)
+		}
+	}
 	cb.NewVar(types.NewSlice(tInt), "gslice")
 	cb.NewVar(gogen.TyEmptyInterface, "gany")
 	rcv := pkg.NewType("Rcv").InitType(pkg, tInt)
@@ -446,7 +457,9 @@ func (c *c09Hist) declScenario(k int) {
 			k, v = "kk", name
 		}
 		cb.ForRange(k, v).Val(pkg.Types.Scope().Lookup("gslice")).RangeAssignThen(token.NoPos)
-		cb.VarRef(nil).VarRef(nil).Val(cb.Scope().Lookup(k)).Val(cb.Scope().Lookup(v)).Assign(2, 2)
+		if !unused {
+			cb.VarRef(nil).VarRef(nil).Val(cb.Scope().Lookup(k)).Val(cb.Scope().Lookup(v)).Assign(2, 2)
+		}
 		ref()
 		cb.End()
 	case "type-switch variable":
@@ -622,7 +635,7 @@ func c09Run(tier string, seed uint64, i int) []h.Result {
 	return []h.Result{res}
 }
 
-func c09DeclScenarios() int { return len(c09DeclKinds) * len(c09DeclPkgs) }
+func c09DeclScenarios() int { return 2 * len(c09DeclKinds) * len(c09DeclPkgs) }
 
 func c09ErrClass(m string) string {
 	switch {
@@ -646,7 +659,7 @@ func init() {
 			"type-switch clauses and inline closures; declarations whose names equal import base names or the names the renamer would pick (fmt, util, strings, os, errors, fmt1, util1, util2, _autoGo_1, ...) as package-level var/const/type/func, parameters, named results, locals, " +
 			"range variables, type-switch bindings and closure parameters, before and after the references; references built and discarded with ResetStmt; ForceImport. Oracle per written file (go/parser + go/types with the same importer): the package type-checks; import names are unique in the file " +
 			"and differ from every identifier declared in the package; the multiset of (import path, member) that Go resolves for qualified identifiers equals the multiset the history made from that file; the import set equals referenced ∪ force-imported paths. " +
-			"SOLE-DECLARATION scenarios (both tiers, deterministic): the base name of an imported package is declared exactly once in the whole package by one of 17 kinds of declaration (value / pointer receiver, parameter, variadic parameter, named result, local variable / constant / type, range key / value, type-switch variable, closure parameter, package-level var / const / type / func, package-level var of another file) and the package is referenced inside that scope, for 3 packages. " +
+			"SOLE-DECLARATION scenarios (both tiers, deterministic): the base name of an imported package is declared exactly once in the whole package by one of 17 kinds of declaration (value / pointer receiver, parameter, variadic parameter, named result, local variable / constant / type, range key / value, type-switch variable, closure parameter, package-level var / const / type / func, package-level var of another file) and the package is referenced inside that scope, for 3 packages, with and without a use of the declared name (without: the declaration is the only occurrence of the identifier). " +
 			"POSITION SWEEP (both tiers, deterministic): ~160 one-declaration programs in which a package is referenced exactly once, from one syntactic position (variadic parameter type, array length, case clause, composite-literal key, constraint term, method expression, defer/go call, select clause ...), alone and next to an equally named package: the import must survive, be uniquely named, and the reference must resolve to it. " +
 			"non-trivial = history referencing at least 2 packages, or a position program that was built; distinct by history text / position",
 		Assume: []string{"go/types Info.Uses (PkgName) on the re-checked output", "import order is not part of the property"},
